@@ -237,3 +237,99 @@ Definition run_m64 (input : list Z) : list Z :=
       end
   | _ => []
   end.
+
+(* ---------------------------------------------------------------------------------------- *)
+(* stream c15multi: several tables alive at once, and probe results that are read late.
+   input: ntab :: npool :: pool ++ nops :: ops, 9 integers per op
+          [kind; tab; hash; gen; depth; ply; move; value; type]
+     kinds 0..4 as in c15, on the table in slot `tab`;
+     5 = New(`hash` bytes) into slot `tab`, followed by a probe of all pool keys;
+     6 = LookUp whose result is kept: its accessors are read only at the next op that is not a 6
+         (7 = nothing else; the harness reads them first to last or last to first);
+     the output of the held probes comes in the order of the LookUp calls.
+   An op on an empty or non-existent slot does nothing. Every table is an independent value: what
+   one table answers never depends on another one. *)
+
+Definition tabs := list (option table).
+
+Definition get_tab (ts : tabs) (i : Z) : option table :=
+  if i <? 0 then None else nth (Z.to_nat i) ts None.
+
+Definition slot_ok (ts : tabs) (i : Z) : bool := (0 <=? i) && (i <? Z.of_nat (length ts)).
+
+Definition set_tab (ts : tabs) (i : Z) (t : table) : tabs := set_nth (Z.to_nat i) (Some t) ts.
+
+Definition flush_held (held : list (list Z)) : list Z := concat (rev held).
+
+(* one op that is not a held probe: None = panic, else the new tables and the output *)
+Definition multi_step (pool : list Z) (ts : tabs) (k tb h g d p m v ty : Z) : option (tabs * list Z) :=
+  let hash := and64 h in
+  let ply := wrap8 p in
+  if k =? 5 then
+    if slot_ok ts tb then
+      match tt_new (wrap64 h) with
+      | None => None
+      | Some t => Some (set_tab ts tb t, snapshot t pool ply)
+      end
+    else Some (ts, [])
+  else
+    match get_tab ts tb with
+    | None => Some (ts, [])
+    | Some t =>
+        if k =? 0 then
+          let t' := insert t hash (Z.land g 255) (wrap8 d) ply (Z.land m 65535) (wrap16 v) (Z.land ty 255) in
+          Some (set_tab ts tb t', snapshot t' pool ply)
+        else if k =? 1 then Some (ts, probe_obs t hash ply)
+        else if k =? 2 then
+          let t' := tt_clear t in Some (set_tab ts tb t', snapshot t' pool ply)
+        else if k =? 3 then
+          match tt_resize t (wrap64 h) with
+          | None => None
+          | Some t1 => let t' := tt_clear t1 in Some (set_tab ts tb t', snapshot t' pool ply)
+          end
+        else if k =? 4 then
+          match tt_resize t (wrap64 h) with
+          | None => None
+          | Some t' => Some (set_tab ts tb t', snapshot t' pool ply)
+          end
+        else Some (ts, [])
+    end.
+
+Fixpoint run_multi (pool : list Z) (ts : tabs) (held : list (list Z)) (ops : list Z) {struct ops}
+  : option (list Z) :=
+  match ops with
+  | k :: tb :: h :: g :: d :: p :: m :: v :: ty :: rest =>
+      if k =? 6 then
+        run_multi pool ts
+          (match get_tab ts tb with
+           | Some t => probe_obs t (and64 h) (wrap8 p) :: held
+           | None => held
+           end) rest
+      else
+        match multi_step pool ts k tb h g d p m v ty with
+        | None => None
+        | Some (ts', o) =>
+            match run_multi pool ts' [] rest with
+            | Some out => Some (flush_held held ++ o ++ out)
+            | None => None
+            end
+        end
+  | _ => Some (flush_held held)
+  end.
+
+Definition clamp_ntab (n : Z) : nat := Z.to_nat (Z.min 8 n).
+
+Definition run_c15multi (input : list Z) : list Z :=
+  match input with
+  | ntab :: np :: rest =>
+      let pool := map and64 (firstn (Z.to_nat np) rest) in
+      match skipn (Z.to_nat np) rest with
+      | nops :: ops =>
+          match run_multi pool (repeat None (clamp_ntab ntab)) [] (firstn (Z.to_nat (9 * nops)) ops) with
+          | Some out => out
+          | None => [-1; -1; -1]
+          end
+      | [] => []
+      end
+  | _ => []
+  end.
